@@ -123,6 +123,13 @@ def failures(pid, inst, res):
                 bad.append(("C07-unserved-increases", "unserved %d at %s -> %d at %s" % (a[1], a[0], b[1], b[0])))
                 break
     if cf.get("wire"):
+        # the transition-optimisation stage handed back a transition that a single move of its own neighbourhood improves
+        # (TSTOP clause 1524 of the replay on TOpt.v; the neighbourhood is the model's, compared with the code's on every
+        # run): the stage was skipped or cut short, the answer does not carry "the rotation cycles chosen by the
+        # transition optimisation" (seeded C16h)
+        md = res.get("model_diff") or ""
+        if md.startswith("transition optimiser (TOpt.v): stopped although") and " 1524 " in md:
+            bad.append(("C16-optimiser-stage-skipped-or-cut-short", md[:300]))
         for k in ("WIRE", "WIREJSON", "WIRESTART"):
             v = res["wire"].get(k)
             if v is None:
@@ -142,9 +149,11 @@ def failures(pid, inst, res):
 
 
 def run_one(args):
-    d, k, inst = args
-    # every fourth run goes through the command-line wiring (internal::run) instead of the server's
-    entry = "internal" if k % 4 == 3 else "server"
+    d, k, inst = args[:3]
+    # every fourth run goes through the command-line wiring (internal::run) instead of the server's — every second one
+    # for C16, whose subject is the wiring itself; corpus instances go through both (explicit entry)
+    period = 2 if os.path.basename(d) == "C16" else 4
+    entry = args[3] if len(args) > 3 else ("internal" if k % period == period - 1 else "server")
     res = solve.run_solve(d, "c%d" % k, inst, pipemodel=True, entry=entry)
     res["inst"] = inst
     res["k"] = k
@@ -161,8 +170,13 @@ def main(pid, tier, seed):
     n = lib.ncases(180 if tier == "quick" else 12000)
     rng = random.Random(seed * 7919 + int(pid[1:]))
     d = lib.casedir(pid)
-    insts = lib.load_corpus(pid) + [instgen.gen_instance(rng, profile_for(pid, rng)) for _ in range(n)]
-    results = lib.pmap(run_one, [(d, k, inst) for k, inst in enumerate(insts)])
+    corpus = lib.load_corpus(pid)
+    insts = corpus + [instgen.gen_instance(rng, profile_for(pid, rng)) for _ in range(n)]
+    jobs = [(d, k, inst) for k, inst in enumerate(insts)]
+    # corpus instances once more through the other entry point
+    jobs += [(d, len(insts) + j, inst, "server" if (j % (2 if pid == "C16" else 4)) == (1 if pid == "C16" else 3) else "internal")
+             for j, inst in enumerate(corpus)]
+    results = lib.pmap(run_one, jobs)
     return conclude(pid, tier, seed, t0, proof, results, CONF[pid]["what"])
 
 
